@@ -266,6 +266,9 @@ func worker(t *testing.T, c core.Cfg) {
 	for g := c.Worker; time.Now().Before(d2) && part.HarnessErr == ""; g += nw {
 		seed := core.Derive(c.Seed, "C18", "loader", fmt.Sprint(g))
 		lc := GenLCase(seed)
+		if g%16 == 5 {
+			lc = GenExtRefCase(seed)
+		}
 		if os.Getenv("VERIF_DEBUG") != "" {
 			_ = core.WriteJSON(filepath.Join(c.OutDir, fmt.Sprintf("current-%d.json", c.Worker)), lc)
 		}
